@@ -159,7 +159,7 @@ func c02Model(h *HistSys, hist []Op, w *world.World) (*Finding, string) {
 			if dead[o.EventUID] {
 				known[o.EventUID] = true
 			}
-		case "resync":
+		case "resync", "resynccf":
 			for u := range dead {
 				known[u] = true
 			}
